@@ -50,6 +50,8 @@ def gen(rng, tier):
     cases = []
     for _ in range(120 if tier == "quick" else 1500):
         cases.append(dict(line=arbgen.gen_replaced_contest(rng, ("ing", "vs", "pt")), tags=["replaced-object"]))
+    for _ in range(120 if tier == "quick" else 1500):
+        cases.append(dict(line=arbgen.gen_replaced_attached(rng), tags=["replaced-attached-object"]))
     n, maxops = (400, 12) if tier == "quick" else (3000, 30)
     for _ in range(n):
         cases.append(dict(line=arbgen.gen_history(rng, maxops=maxops), tags=["history"]))
